@@ -736,8 +736,28 @@ def dumps(j):  # noqa: F811  (RawJ support)
 
 # ---------------------------------------------------------------- Gallina terms
 
+EVAL_DEFS = """Fixpoint unpack21 (fuel : nat) (z : Z) : list Z :=
+  match fuel with O => [] | S f => if z <=? 0 then [] else (z mod 2097152 - 1) :: unpack21 f (z / 2097152) end.
+Definition S21 (n z : Z) : list Z := unpack21 (Z.to_nat n) z."""
+
+
 def gstr(s):
-    return "[" + "; ".join(str(ord(c)) for c in s) + "]"
+    """a code-point list; long ones are packed into one hexadecimal numeral (21 bits per character, +1) because long
+    list literals elaborate slowly in coqc"""
+    if len(s) <= 3:
+        return glist([str(ord(c)) for c in s])
+    z = 0
+    for i, c in enumerate(s):
+        z |= (ord(c) + 1) << (21 * i)
+    return "(S21 %d 0x%x)" % (len(s), z)
+
+
+def glist(items):
+    """explicit cons/nil: nested `[ ; ]` notations elaborate very slowly in coqc"""
+    out = "nil"
+    for x in reversed(items):
+        out = "(cons %s %s)" % (x, out)
+    return out
 
 
 def gty(t):
@@ -756,7 +776,7 @@ def gty(t):
         return "(TDict %s)" % gty(t[1])
     if k == "opt":
         return "(TOpt %s)" % gty(t[1])
-    return "(TStruct [%s])" % "; ".join("(%s, %s)" % (gstr(f), gty(ft)) for f, ft in t[1].fields)
+    return "(TStruct %s)" % glist(["(pair %s %s)" % (gstr(f), gty(ft)) for f, ft in t[1].fields])
 
 
 def gval(t, v):
@@ -768,12 +788,12 @@ def gval(t, v):
     if k == "str":
         return "(VStr %s)" % gstr(v)
     if k == "list":
-        return "(VList [%s])" % "; ".join(gval(t[1], x) for x in v)
+        return "(VList %s)" % glist([gval(t[1], x) for x in v])
     if k == "dict":
-        return "(VDict [%s])" % "; ".join("(%s, %s)" % (gstr(q), gval(t[1], x)) for q, x in v["__dict__"])
+        return "(VDict %s)" % glist(["(pair %s %s)" % (gstr(q), gval(t[1], x)) for q, x in v["__dict__"]])
     if k == "opt":
         return "VNone" if v is None else "(VSome %s)" % gval(t[1], v[1])
-    return "(VStruct [%s])" % "; ".join("(%s, %s)" % (gstr(f), gval(ft, x[1])) for (f, ft), x in zip(t[1].fields, v[2]))
+    return "(VStruct %s)" % glist(["(pair %s %s)" % (gstr(f), gval(ft, x[1])) for (f, ft), x in zip(t[1].fields, v[2])])
 
 
 def cps(s):
@@ -885,16 +905,16 @@ def run_batch(chk, binary, scratch, name, decls, ftexts, res, model_ok):
             terms.append("map (fun b : bool => if b then 1 else 0) (run_pair %s %s)" % (a, b))
             idx.append(k)
         elif tag == "H":
-            terms.append("[run_distinct [%s]]" % "; ".join(gval(t, v) for v in d.values))
+            terms.append("(cons (run_distinct %s) nil)" % glist([gval(t, v) for v in d.values]))
             idx.append(k)
         elif tag == "C":
-            terms.append("(map (fun b : bool => if b then 1 else 0) [veq (vclone %s) %s])" % (gval(t, d.values[rec[2]]), gval(t, d.values[rec[2]])))
+            terms.append("(map (fun b : bool => if b then 1 else 0) (cons (veq (vclone %s) %s) nil))" % (gval(t, d.values[rec[2]]), gval(t, d.values[rec[2]])))
             idx.append(k)
     model = {}
     if model_ok and terms:
         req = "From Verif Require Import Base.I64 C20.Model.\nFrom Coq Require Import ZArith List.\nImport ListNotations.\nOpen Scope Z_scope."
         t2 = time.time()
-        vals = vlib.coq_eval(req, "list Z", "fun x => x", terms, shard=150, tag="c20" + name)
+        vals = vlib.coq_eval(req, "list Z", "fun x => x", terms, shard=150, tag="c20" + name, extra_defs=EVAL_DEFS)
         vlib.log("[c20] model evaluation of %d cases in %.1fs" % (len(terms), time.time() - t2))
         model = dict(zip(idx, vals))
     # ---- compare
@@ -1236,6 +1256,7 @@ def run(chk):
     chk.coverage["correspondence_mismatches"] = len(corr)
     chk.coverage["known_class_hits"] = {k: (v if isinstance(v, int) else len(v)) for k, v in list(res["known_hits"].items()) + list(known_rows.items())}
 
+    fails.sort(key=lambda f: (0, len(f["record"])) if f["record"].startswith(("table", "jsonmethods")) else (1, 0))
     for f in fails[:20]:
         chk.violation("failing-input", f)
     if not fails:
